@@ -52,7 +52,10 @@ def judge(ctx, g, prune, o, limit):
                     fx = [Fr(y) for y in r["probs"]]
                     b = oracles.bellman_reach(g["players"], xtl, g["final_states"], fx)
                     res = max(abs(a - c) for a, c in zip(b, fx))
-                sig = KEY_SOLV if (res is not None and res <= THR * (1 + Fr(1, 1000)) and v0 <= 10 * THR) else None
+                # the listed finding is about a REPORTED probability of exactly 0 for state 0 (the value
+                # needs one more sweep to propagate); raising although the report is positive is not it
+                sig = KEY_SOLV if (res is not None and res <= THR * (1 + Fr(1, 1000)) and v0 <= 10 * THR
+                                   and r["probs"][0] == 0) else None
                 ctx.violation("no-solution-iff-value-zero", inp, {"true_value_state0": v0, "residual": res}, key=sig)
         return
     ctx.violation("no-other-error", inp, {"outcome": out, "msg": o.get("msg")})
@@ -97,9 +100,61 @@ def chain_game(n, rng):
     return gen.finish(rewards, players, xtl, [win], {"family": "chain", "n": n})
 
 
+def tiny_direct_games():
+    """initial state with a positive value far below the threshold, reported exactly (no propagation
+    needed); initial state that is itself the (absorbing) final state"""
+    out = []
+    for q in (Fr(1, 2 ** 24), Fr(1, 2 ** 31), Fr(1, 10 ** 7), Fr(1, 2 ** 50)):
+        out.append(gen.finish([1, 0, 0], [PR, PR, PR], [[(q, 2), (1 - q, 1)], [(Fr(1), 1)], [(Fr(1), 2)]], [2],
+                              {"family": "tiny_direct"}))
+        for k in (P1, P2):
+            out.append(gen.finish([0, 1, 0, 0], [PR, k, PR, PR],
+                                  [[(q, 3), (1 - q, 2)], [("a", 0)], [(Fr(1), 2)], [(Fr(1), 3)]], [3],
+                                  {"family": "tiny_direct"}))
+    # state 0 is final and absorbing; the rest of the game is arbitrary
+    out.append(gen.finish([0, 2, 0], [PR, PR, PR], [[(Fr(1), 0)], [(Fr(1, 2), 0), (Fr(1, 2), 2)], [(Fr(1), 2)]], [0],
+                          {"family": "initial_final"}))
+    out.append(gen.finish([0, 1, 0, 0], [PR, P1, PR, PR], [[(Fr(1), 0)], [("a", 2), ("b", 3)], [(Fr(1), 2)], [(Fr(1), 3)]],
+                          [3, 0], {"family": "initial_final"}))
+    return out
+
+
+def through_run_games(ctx, games):
+    """run_games()[name]['msg'] (observe_at): an unsolvable game must not affect its neighbours"""
+    from crlib import repo, quiet, time_limit
+    cr = repo("conditionalrewards")
+    d = {f"g{i}": gen.desc(g) for i, g in enumerate(games)}
+    solo = [impl.solve(g, True, want_nodes=False)["outcome"] for g in games]
+    try:
+        with quiet(), time_limit(60.0):
+            res = cr.run_games(d)
+    except BaseException as e:  # noqa
+        ctx.violation("batch-terminates", {"games": list(d.values())}, {"error": type(e).__name__})
+        return
+    for i, g in enumerate(games):
+        m = res[f"g{i}"]["msg"]
+        exp_ok = solo[i] == "ok"
+        if exp_ok != (m == "Game solved") or (not exp_ok and "no solution" not in str(m).lower()):
+            ctx.violation("run_games-message", {"games": list(d.values()), "index": i}, {"msg": m, "solo": solo[i], "all": [res[f"g{j}"]["msg"] for j in range(len(games))]})
+            return
+        if exp_ok and res[f"g{i}_no_prune"]["msg"] != "Game solved":
+            ctx.violation("run_games-message", {"games": list(d.values()), "index": i}, {"no_prune_msg": res[f"g{i}_no_prune"]["msg"]})
+            return
+    ctx.count("through_run_games")
+
+
 def run(ctx, model=None):
     ctx.extra["rule"] = RULE
     rng = random.Random(ctx.seed * 3010349 + 6)
+    specials = tiny_direct_games()
+    for g in specials:
+        check_case(ctx, g, model)
+    pool = []
+    while len(pool) < 12:
+        g = gen.stopping_game(rng, n_inner=rng.randint(2, 5), dead_frac=0.5)
+        pool.append(g)
+    for k in range(4 if ctx.quick() else 40):
+        through_run_games(ctx, rng.sample(pool, rng.randint(2, 5)))
     for kind in (PR, P1):
         for pat in gen.all_patterns(4 if ctx.quick() else 6):
             for sl in (False, True):
